@@ -654,7 +654,7 @@ func exploreBare(c *vx.Ctx, props string, maxDev int, bfsDepth int, st *exploreS
 	// Simultaneously ready inputs (controlled main select of the state machine, see smbare.go): the next 2 or 3
 	// scripted events - or one scripted and one inserted event - all reach the state machine's inputs before its
 	// kernel looks at any; every select case is tried as the one taken first.
-	batchInserts := []string{"HC", "TF", "VW:old", "VW:oldheight", "V:c:oh:A", "V:c:oh:nil", "V:p:oh:nil@0,1", "V:p:3:B", "PH:B", "PROP", "BDA", "DR", "SR", "SR:nil"}
+	batchInserts := []string{"HC", "NCHC", "TF", "VW:old", "VW:oldheight", "V:c:oh:A", "V:c:oh:nil", "V:p:oh:nil@0,1", "V:p:3:B", "PH:B", "PROP", "BDA", "DR", "SR", "SR:nil"}
 	nBatch := 0
 	for pos := 0; pos < len(script); pos++ {
 		for pref := 1; pref <= 8; pref++ {
@@ -667,6 +667,13 @@ func exploreBare(c *vx.Ctx, props string, maxDev int, bfsDepth int, st *exploreS
 				jobs = append(jobs, job(fmt.Sprintf("%d:+BATCH:2:%d", pos, pref), fmt.Sprintf("%d:+%s", pos+1, ev)))
 				nBatch++
 			}
+		}
+	}
+	for pos := 0; pos <= len(script); pos++ {
+		for pref := 1; pref <= 8; pref++ {
+			// one event that makes two inputs ready (commit view + height-committed signal), each case first
+			jobs = append(jobs, job(fmt.Sprintf("%d:+BATCH:1:%d", pos, pref), fmt.Sprintf("%d:+NCHC", pos)))
+			nBatch++
 		}
 	}
 	c.Extra["bare_sm_batched_input_executions"] = nBatch
